@@ -21,7 +21,7 @@ import (
 func init() {
 	simkit.Register(&simkit.Property{
 		ID: "C07", Level: "exploration", Bubble: true, Run: runC07,
-		Rule: "World B: a whole DKG life cycle driven only through the nodes' inputs. n in {3,4,5} keypers, threshold t, phase length 4-8 blocks; each honest keyper runs the real main loop (SyncAppWithDB / handleOnChainChanges / SendShutterMessages, eon key handler) on its own pgsim database created by the repository's db.InitDB, against one real app.ShutterApp behind simtm; the harness plays the chain observer (keyper_set row, simeth head). Up to n-t keypers are Byzantine scripted clients built on shlib puredkg that follow a per-victim strategy from the statement's alphabet (eval correct / wrong / none; commitment correct / none / wrong degree / duplicate; accusation none / false; apology correct / wrong / none; in phase / after phase). Block contents (which pending transactions, in which order) and all database / RPC round trips are scheduler choices. Oracle: all honest keypers whose dkg_result says success hold the same eon public key and public key share vector; each one's secret share matches its public share; any t honest shares yield an epoch key that verifies against the eon key and decrypts a trial message; if nobody is Byzantine and every DKG message landed inside its phase, all report success. Non-trivial = a run with >= 1 accusation and >= 1 apology on chain; distinct = distinct trace hashes among those.",
+		Rule: "World B: a whole DKG life cycle driven only through the nodes' inputs. n in {3,4,5} keypers, threshold t, phase length 4-8 blocks; each honest keyper runs the real main loop (SyncAppWithDB / handleOnChainChanges / SendShutterMessages, eon key handler) on its own pgsim database created by the repository's db.InitDB, against one real app.ShutterApp behind simtm; the harness plays the chain observer (keyper_set row, simeth head). Up to n-t keypers are Byzantine scripted clients built on shlib puredkg that follow a per-victim strategy from the statement's alphabet (eval correct / wrong / none; commitment correct / none / wrong degree / duplicate; accusation none / false; apology correct / wrong / none; in phase / after phase). Block contents (which pending transactions, in which order) and all database / RPC round trips are scheduler choices; in 30% of the runs one honest keyper stalls (no round trip completes) for 2..L+3 blocks and then catches up at once. Oracle: all honest keypers whose dkg_result says success hold the same eon public key and public key share vector; each one's secret share matches its public share; any t honest shares yield an epoch key that verifies against the eon key and decrypts a trial message; if nobody is Byzantine and every DKG message landed inside its phase, all report success. Non-trivial = a run with >= 1 accusation and >= 1 apology on chain; distinct = distinct trace hashes among those.",
 		Assumptions: []string{"Tendermint consensus is a stub: one application instance, blocks are final", "the harness plays the chain observer (keyper_set table) and the execution chain head"},
 		Real:        []string{"keyper.KeyperCore.operateShuttermint (smobserver.SyncAppWithDB, ShuttermintState, handleOnChainChanges, fx.SendShutterMessages)", "app.ShutterApp", "shlib puredkg / shcrypto", "keyper/database sqlc, pgx", "ethclient"},
 		Stub:        []string{"Tendermint consensus / mempool / RPC (simtm)", "execution node (simeth)", "PostgreSQL (pgsim)", "libp2p (simnet)"},
@@ -159,7 +159,23 @@ func runC07(r *simkit.Run) {
 	w.advanceEth(2)
 	eon := int64(1)
 	done := false
+	// a stalled keyper: for a while none of its database / RPC round trips complete, then it
+	// catches up with everything at once (possibly across a phase boundary)
+	stallNode, stallFrom, stallLen := -1, 0, 0
+	if c.Chance(300, "stall-a-keyper") {
+		stallNode = c.Intn(len(honest), "stalled-keyper")
+		stallFrom = c.Range(1, int(3*L), "stall-from-block")
+		stallLen = c.Range(2, int(L)+3, "stall-blocks")
+		r.Eventf("%s stalls for %d blocks from block %d of the key generation", honest[stallNode].name, stallLen, stallFrom)
+	}
 	for blk := 0; blk < int(8*L)+40 && !done; blk++ {
+		if stallNode >= 0 {
+			on := blk >= stallFrom && blk < stallFrom+stallLen
+			if on && !w.stalled[honest[stallNode].name] {
+				r.Fault("node.stall")
+			}
+			w.stalled[honest[stallNode].name] = on
+		}
 		step()
 		if blk%3 == 0 {
 			w.advanceEth(1)
@@ -173,6 +189,9 @@ func runC07(r *simkit.Run) {
 				r.Fail("keyper-loop-stopped", "main-loop", "%s: main loop stopped without any injected fault: %v", nd.name, nd.loopErr)
 			}
 		}
+	}
+	if stallNode >= 0 {
+		w.stalled[honest[stallNode].name] = false
 	}
 	if !done {
 		for _, nd := range honest {
